@@ -74,9 +74,22 @@ pub fn run(ctx: &Ctx) -> i32 {
                 b.nontrivial += 1;
                 b.sample((k * 8 + hist.len()) as u64, || json!({"asset": rel, "history": h}));
             }
+            // a signing attempt that fails in this state: what the caller then writes must still be a valid package
+            let mut f = p.clone();
+            if f.sign(crate::corpus::UnavailableSigner).is_err() {
+                let mut y = vec![];
+                if f.write(&mut y).is_ok() {
+                    b.evals += 1;
+                    let mut h2 = hist.clone();
+                    h2.push("sign(unavailable signer) → Err");
+                    if oracle_valid("foreign-histories", &y, false, (k * 8 + hist.len()) as u64 + 100, &|| json!({"asset": rel, "history": h2}), &mut b) {
+                        b.nontrivial += 1;
+                    }
+                }
+            }
         }
     }
-    let s2 = SubReport::new("foreign-histories", "B-style history on assets", "each asset after sign(ed25519), sign(rsa4096), clear, sign(ecdsa): the rebuilt signature header and the untouched rest must satisfy every rule", b);
+    let s2 = SubReport::new("foreign-histories", "B-style history on assets", "each asset after sign(ed25519), sign(rsa4096), clear, sign(ecdsa), and in each of these states after a signing attempt that fails: the rebuilt signature header and the untouched rest must satisfy every rule", b);
     for s in [&s1, &s2] {
         if s.acc.nontrivial == 0 && s.acc.viols.is_empty() {
             crate::ctx::machinery(&format!("sub-check {} judged nothing: vacuous", s.name));
